@@ -154,8 +154,13 @@ def enum_witness(script, args):
             p = subprocess.run([REPO_PY, os.path.join(VERIF, "pyvc", f"enum_{script}.py")] + args, capture_output=True,
                                text=True, env=env, timeout=600)
             line = [l for l in p.stdout.splitlines() if l.startswith("{")]
-            w = json.loads(line[-1])["results"][0].get("witness") if line else None
-            _enum_witness[script] = w[0] if w else None
+            w = None
+            for r in (json.loads(line[-1])["results"] if line else []):
+                if not r.get("ok") and r.get("witness"):
+                    w = r["witness"]
+                    w = {"check": r.get("name"), "detail": r.get("detail"), "input": w[0] if isinstance(w, list) and w else w}
+                    break
+            _enum_witness[script] = w
         except Exception:
             _enum_witness[script] = None
     return _enum_witness[script]
@@ -263,6 +268,8 @@ def main(argv):
     samples = []
     out_of_reach = []
     refuted = []
+    known = load_known()
+    known_lines = []
     for rep in reports:
         if rep["status"] in ("out_of_reach", "missing"):
             out_of_reach.append({"function": rep["function"], "reason": rep["error"]})
@@ -275,6 +282,17 @@ def main(argv):
             solver_time += o.get("time_s", 0) or 0
             if o.get("cached"):
                 cache_hits += 1
+            kf = match_known(known, pid, {"obligation": o["name"]}) if o["result"] != "proved" else None
+            if kf is not None:
+                # a listed finding: the obligation is not discharged; it is reported as KNOWN-FINDING only while its
+                # recorded witness still fails on the real code (otherwise the obligation is simply undecided)
+                if replay_known(kf):
+                    if kf not in known_hits:
+                        known_hits.append(kf)
+                        known_lines.append(f"KNOWN-FINDING: property={pid} {kf['what']}")
+                else:
+                    undecided.append(o["name"] + " (listed as a known finding, but its witness no longer fails)")
+                continue
             if o["result"] == "proved":
                 p_dis += 1
                 by_backend[o.get("backend", "?")] = by_backend.get(o.get("backend", "?"), 0) + 1
@@ -346,6 +364,11 @@ def main(argv):
             r = run_rtcheck(rep["function"], bound + 1, seeds, pid, 200000, 120)
             if r.get("failures"):
                 witness = r["failures"][0]
+            if witness is None and rep["function"].startswith(("gherkin.token_matcher.", "gherkin.dialect.")):
+                witness = enum_witness("matcher", ["--bound", "2"])
+            if witness is None:
+                # whole-pipeline replay: generated documents through the real parser / compiler / stream
+                witness = enum_witness("documents", ["--count", "60"])
         violations.append({"obligation": o["name"], "kind": o["kind"], "detail": "refuted by " + str(o.get("backend")),
                            "model": o.get("model"), "goal": o.get("goal"), "witness": witness,
                            "input_found": witness is not None, "file": rep.get("file"), "line": o.get("lineno"),
@@ -358,8 +381,7 @@ def main(argv):
             if base != "out_of_reach":
                 undecided.append(f"{o['function']} fell out of the verifier's reach ({o['reason'][:160]}); bounded stand-in passes")
     # ---------------- verdict
-    known = load_known()
-    lines = []
+    lines = list(known_lines)
     real_violations = []
     for v in violations:
         k = match_known(known, pid, v)
@@ -444,6 +466,18 @@ def baseline_status(function):
         return None
     with open(p) as f:
         return json.load(f).get("functions", {}).get(function, {}).get("status")
+
+
+def replay_known(k):
+    """Run the recorded witness of a known finding against the real code (REPO's current tree): True iff it still fails."""
+    env = dict(os.environ)
+    env["VERIF_REPO"] = REPO
+    try:
+        p = subprocess.run([REPO_PY, os.path.join(VERIF, "pyvc", "replay_known.py"), json.dumps(k)], capture_output=True,
+                           text=True, env=env, timeout=120)
+        return p.returncode == 1
+    except Exception:
+        return False
 
 
 def match_known(known, pid, v):
